@@ -638,10 +638,22 @@ func (am *AllocatorManager) ClusterDCLocationChecker() {
 	if am.member.GetLeader() == nil {
 		return
 	}
+	_ = am.checkClusterDCLocations()
+}
+
+// RefreshClusterDCLocations reads the dc-locations and the max suffix from etcd no matter whether this member knows
+// a PD leader. A member that has won the PD leader campaign must call it before its Global TSO Allocator is
+// initialized, i.e. before it serves: a dc-location that joined after the member's last ClusterDCLocationChecker
+// round would otherwise be left out of the Global TSO synchronization until the checker runs again.
+func (am *AllocatorManager) RefreshClusterDCLocations() error {
+	return am.checkClusterDCLocations()
+}
+
+func (am *AllocatorManager) checkClusterDCLocations() error {
 	newClusterDCLocations, err := am.GetClusterDCLocationsFromEtcd()
 	if err != nil {
 		log.Error("get cluster dc-locations from etcd failed", errs.ZapError(err))
-		return
+		return err
 	}
 	am.mu.Lock()
 	// Clean up the useless dc-locations
@@ -687,11 +699,14 @@ func (am *AllocatorManager) ClusterDCLocationChecker() {
 			for _, dcLocation := range newDCLocations {
 				delete(am.mu.clusterDCLocations, dcLocation)
 			}
+			am.mu.Unlock()
+			return err
 		} else if maxSuffix > am.mu.maxSuffix {
 			am.mu.maxSuffix = maxSuffix
 		}
 	}
 	am.mu.Unlock()
+	return nil
 }
 
 // getOrCreateLocalTSOSuffix will check whether we have the Local TSO suffix written into etcd.
